@@ -12,6 +12,7 @@ import Proofs.StepValid
 import Proofs.Respects
 import Proofs.RangeOps
 import Proofs.Fitter
+import Proofs.FitterText
 import Props.C01
 namespace PM.C11
 open PM
@@ -306,5 +307,85 @@ theorem fit_range_monitor (S : Schema) (doc : Node) (f t : Nat) (sl : Slice) (st
   · simp only
     rw [ftoks_length]
     exact ⟨hft, h1, by omega, h3, Nat.le_refl _, nil f, nil t, cls G2 T (by omega) h4, by omega⟩
+
+/-- **`fitter_slice_text_subsequence`** — the invariant of the Fitter's loop `while self.unplaced.size`
+    (`find_fittable` / `place_nodes` / `open_more` / `drop_node`, any number of iterations): the text
+    already placed followed by the text still unplaced is an in-order subsequence of what it was
+    when the loop started.  Text is never invented, duplicated or reordered; it can only be dropped. -/
+theorem fitter_slice_text_subsequence (S : Schema) (fuel : Nat) (st st' : FitState)
+    (h : fitLoop S fuel st = .ok st') :
+    (ftext st'.placed ++ ftext st'.unplaced.content).Sublist
+      (ftext st.placed ++ ftext st.unplaced.content) :=
+  fitLoop_text S fuel st st' h
+
+/-- **the text half of `respects`**: the slice of the step `replace_step` emits carries only text
+    of the requested slice, in order (`sl.wf`: the requested slice's open depths do not exceed its
+    spine — true of every slice cut from a document) -/
+theorem fit_text (S : Schema) (doc : Node) (f t : Nat) (sl : Slice) (st : Step) (hwf : sl.wf = true)
+    (h : replaceStep S doc f t sl = .ok (some st)) :
+    ∃ sl', st.sliceOf = some sl' ∧
+      (textUnits (sliceToks' sl')).Sublist (textUnits (sliceToks' sl)) := by
+  unfold replaceStep at h
+  split at h
+  · simp [pure, Except.pure] at h
+  · split at h
+    · rename_i rf rt hf ht
+      split at h
+      · simp [throw, throwThe, MonadExceptOf.throw] at h
+      · have := pure_ok h
+        simp only [Option.some.injEq] at this
+        subst this
+        exact ⟨sl, rfl, List.Sublist.refl _⟩
+      · obtain ⟨sl', hs, hsub⟩ := fitterFit_text S hf rt sl _ st h
+        refine ⟨sl', hs, ?_⟩
+        rw [sliceToks'_text_wf sl hwf]
+        exact (sliceToks'_text_sublist sl').trans hsub
+    · simp [throw, throwThe, MonadExceptOf.throw] at h
+
+/-- **`fitter_respects`** — the C11 monitor is a theorem for the Fitter model: every step
+    `replace_step` emits for a request `(f, t, slice)` with `f ≤ t` and a well-formed slice satisfies
+    `respects`.  For a replace step this is unconditional.  For a replace-around step one conjunct of
+    the monitor stays a hypothesis (`htail`: nothing the step inserts after the kept gap is text);
+    it needs an invariant tying the frontier depth to the last-child chain of `placed`, which
+    `place_nodes` does not maintain syntactically (it reads `frontier[frontier_depth]` after opening
+    the wrapper nodes) — that conjunct is still evaluated by the correspondence run. -/
+theorem fitter_respects (S : Schema) (doc : Node) (f t : Nat) (sl : Slice) (st : Step) (hft : f ≤ t)
+    (hwf : sl.wf = true) (h : replaceStep S doc f t sl = .ok (some st))
+    (htail : ∀ F T G1 G2 sl' ins b, st = .replaceAround F T G1 G2 sl' ins b →
+      noText ((sliceToks' sl').drop ins) = true) :
+    respects (ftoks doc.kids) f t sl st = true := by
+  have hr := fit_range_monitor S doc f t sl st hft h
+  obtain ⟨sl', hs, hsub⟩ := fit_text S doc f t sl st hwf h
+  cases st with
+  | replace F T sl2 b =>
+    simp only [Step.sliceOf, Option.some.injEq] at hs
+    subst hs
+    simp only at hr
+    simp only [respects, Bool.and_eq_true, decide_eq_true_eq]
+    exact ⟨⟨⟨⟨⟨⟨hr.1, hr.2.1⟩, hft⟩, hr.2.2.1⟩, hr.2.2.2.1⟩, hr.2.2.2.2⟩, isSubseq_of_sublist hsub⟩
+  | replaceAround F T G1 G2 sl2 ins b =>
+    simp only [Step.sliceOf, Option.some.injEq] at hs
+    subst hs
+    simp only at hr
+    obtain ⟨r1, r2, r3, r4, r5, r6, r7, r8, r9⟩ := hr
+    simp only [respects, Bool.and_eq_true, decide_eq_true_eq]
+    refine ⟨⟨⟨⟨⟨⟨⟨⟨⟨⟨⟨r1, r2⟩, r3⟩, r4⟩, hft⟩, r5⟩, r6⟩, r7⟩, r8⟩, r9⟩, htail _ _ _ _ _ _ _ rfl⟩, ?_⟩
+    exact isSubseq_of_sublist ((textUnits_sublist (List.take_sublist _ _)).trans hsub)
+  | _ => simp at hr
+
+/-- **content preservation for fitted replace steps, without a monitored hypothesis**: if
+    `replace_step` emits a replace step and it applies, all text and leaf nodes before `f` and after
+    `t` are kept in order, with exactly the step's slice content between them, whose text is an
+    in-order subsequence of the requested text -/
+theorem fitter_replace_preserves (S : Schema) (doc doc' : Node) (f t : Nat) (sl : Slice)
+    (F T : Nat) (sl' : Slice) (b : Bool) (hft : f ≤ t) (hwf : sl.wf = true)
+    (h : replaceStep S doc f t sl = .ok (some (.replace F T sl' b)))
+    (ha : S.apply (.replace F T sl' b) doc = .ok doc') :
+    (ftoks doc'.kids).filter Tok.isContent =
+      ((ftoks doc.kids).take f).filter Tok.isContent ++ (sliceToks' sl').filter Tok.isContent
+        ++ ((ftoks doc.kids).drop t).filter Tok.isContent ∧
+    isSubseq (textUnits (sliceToks' sl')) (textUnits (sliceToks' sl)) = true :=
+  respects_replace S doc doc' f t sl F T sl' b
+    (fitter_respects S doc f t sl _ hft hwf h (fun _ _ _ _ _ _ _ he => by cases he)) ha
 
 end PM.C11
